@@ -31,6 +31,7 @@ inductive XExpr
   | un (op : UnOp) (e : XExpr)
   | bin (op : BinOp) (l r : XExpr)
   | call (f : String) (args : XArgs)
+  | fld (c : String) (f : String)             -- stage S5: `instance.variable`
 /-- `Vec<CallArg>`: optional formal name, whether it was written with `=>`, the expression. -/
 inductive XArgs
   | nil
@@ -67,6 +68,7 @@ mutual
 inductive XStmt
   | assign (x : String) (e : XExpr)
   | expr (e : XExpr)                                   -- `Stmt::Expr` (a call as a statement)
+  | fbcall (c : String) (args : XArgs)                 -- stage S5: `instance(args);`
   | ite (c : XExpr) (t : XBlock) (elifs : XElifs) (el : XBlock)
   | case (sel : XExpr) (brs : XBranches) (el : XBlock)
   | for (x : String) (s e : XExpr) (step : Option XExpr) (body : XBlock)
@@ -110,11 +112,31 @@ structure FuncDef where
   locals : List Local
   body : XBlock
 
+/-- `eval/mod.rs: FunctionBlockDef` (no temps, no methods, no base). -/
+structure FbDef where
+  name : String
+  params : List Param
+  vars : List Local
+  body : XBlock
+
 structure XProgram where
   name : String := "P"
   funcs : List FuncDef
+  fbs : List FbDef := []
   decls : List VarDecl
+  /-- FB instance variables of the PROGRAM: (variable, FUNCTION_BLOCK type) -/
+  insts : List (String × String) := []
   body : XBlock
+
+/-- The POU definitions the evaluator can reach (`ctx.functions`, `ctx.function_blocks`) and the
+type of each FB instance variable (`InstanceData.type_name`). -/
+structure Defs where
+  funcs : List FuncDef
+  fbs : List FbDef := []
+  instTy : List (String × String) := []
+
+def findFb (fbs : List FbDef) (t : String) : Option FbDef :=
+  fbs.find? (fun d => d.name.toUpper = t.toUpper)
 
 /-- `functions.get(&key)` with the upper-cased call name (function lookup is case-insensitive). -/
 def findFunc (fs : List FuncDef) (f : String) : Option FuncDef :=
@@ -132,7 +154,15 @@ structure XStore where
   vars : Env
   globals : Env := []
   frames : List Frame := []
+  /-- variables of the FB instances, keyed by the PROGRAM variable that holds the instance -/
+  insts : List (String × Env) := []
   deriving Repr, Inhabited
+
+def instVars (σ : XStore) (c : String) : Option Env :=
+  (σ.insts.find? (fun p => p.1 = c)).map (·.2)
+
+def setInstVar (σ : XStore) (c : String) (x : String) (v : Val) : XStore :=
+  { σ with insts := σ.insts.map fun p => if p.1 = c then (p.1, insert x v p.2) else p }
 
 /-- `VariableStorage::get_local`: only the **current** (last pushed) frame is consulted. -/
 def getLocal (σ : XStore) (x : String) : Option Val :=
@@ -146,26 +176,39 @@ def setLocal (σ : XStore) (x : String) (v : Val) : XStore :=
   | [] => σ
   | fr :: rest => { σ with frames := { fr with locals := insert x v fr.locals } :: rest }
 
-/-- `eval/expr/access.rs: read_name`. -/
-def readNameX (σ : XStore) (x : String) : M Val :=
+/-- Variables of `ctx.current_instance`. -/
+def curVars (cur : Option String) (σ : XStore) : Env :=
+  match cur with
+  | none => σ.vars
+  | some c => (instVars σ c).getD []
+
+/-- `eval/expr/access.rs: read_name`: current frame, current instance, globals. -/
+def readNameC (cur : Option String) (σ : XStore) (x : String) : M Val :=
   match getLocal σ x with
   | some v => pure v
   | none =>
-    match lookup x σ.vars with
+    match lookup x (curVars cur σ) with
     | some v => pure v
     | none =>
       match lookup x σ.globals with
       | some v => pure v
       | none => fault .UndefinedVariable .readName
 
+def readNameX (σ : XStore) (x : String) : M Val := readNameC none σ x
+
 /-- `eval/expr/access.rs: write_name`. -/
-def writeNameX (σ : XStore) (x : String) (v : Val) : XStore :=
+def writeNameC (cur : Option String) (σ : XStore) (x : String) (v : Val) : XStore :=
   match getLocal σ x with
   | some _ => setLocal σ x v
   | none =>
-    match lookup x σ.vars with
-    | some _ => { σ with vars := insert x v σ.vars }
+    match lookup x (curVars cur σ) with
+    | some _ =>
+      match cur with
+      | none => { σ with vars := insert x v σ.vars }
+      | some c => setInstVar σ c x v
     | none => { σ with globals := insert x v σ.globals }
+
+def writeNameX (σ : XStore) (x : String) (v : Val) : XStore := writeNameC none σ x v
 
 def pushFrame (σ : XStore) (owner : String) : XStore :=
   { σ with frames := { owner := owner } :: σ.frames }
@@ -194,6 +237,7 @@ inductive XFlow
 structure Ctl where
   ld : Nat := 0                      -- loop_depth (NOT reset by a call)
   retName : Option String := none    -- return_name
+  cur : Option String := none        -- current_instance: none = the PROGRAM, some c = FB instance c
   deriving Repr, Inhabited
 
 abbrev XRes (α : Type) := XStore × M α
@@ -220,35 +264,47 @@ def findXBranch (n : Int) : XBranches → Option XBlock
 
 mutual
 /-- `eval/expr/eval.rs: eval_expr`, store-threading. -/
-def evalX (fs : List FuncDef) : Nat → Ctl → XStore → XExpr → XRes Val
+def evalX (ds : Defs) : Nat → Ctl → XStore → XExpr → XRes Val
   | 0, _, σ, _ => (σ, xtimeout)
   | fuel + 1, ctl, σ, e =>
     match e with
     | .lit ty v => (σ, pure (litVal .real ty v))
     | .blit v => (σ, pure (.b v))
-    | .var x => (σ, readNameX σ x)
+    | .var x => (σ, readNameC ctl.cur σ x)
     | .un op e =>
-      match evalX fs fuel ctl σ e with
+      match evalX ds fuel ctl σ e with
       | (σ1, .ok v) => (σ1, applyUnary op v)
       | (σ1, .error s) => (σ1, .error s)
     | .bin op l r =>
-      match evalX fs fuel ctl σ l with
+      match evalX ds fuel ctl σ l with
       | (σ1, .error s) => (σ1, .error s)
       | (σ1, .ok a) =>
         if op = .and ∧ a = .b false then (σ1, pure (.b false))
         else if op = .or ∧ a = .b true then (σ1, pure (.b true))
         else
-          match evalX fs fuel ctl σ1 r with
+          match evalX ds fuel ctl σ1 r with
           | (σ2, .error s) => (σ2, .error s)
           | (σ2, .ok b) => (σ2, applyBinary op a b)
+    | .fld c f =>
+      -- `read_field(Value::Instance(id), f)` on a PROGRAM variable holding an FB instance
+      match instVars σ c with
+      | none => (σ, fault .UndefinedVariable .readName)
+      | some e =>
+        match lookup f e with
+        | some v => (σ, pure v)
+        | none => (σ, fault .UndefinedField .readName)
     | .call f args =>
-      match findFunc fs f with
-      | none => (σ, fault .TypeMismatch .callUndefined)       -- no stdlib / FB in stage S4
-      | some fd => callFunction fs fuel ctl σ fd args
+      match findFunc ds.funcs f with
+      | none =>
+        -- not a function: `eval_expr(target)` reads the name; a non-instance value is TypeMismatch
+        match readNameC ctl.cur σ f with
+        | .error s => (σ, .error s)
+        | .ok _ => (σ, fault .TypeMismatch .callUndefined)
+      | some fd => callFunction ds fuel ctl σ fd args
 
 /-- `eval/mod.rs: prepare_bindings` (`BindingMode::Function`), one parameter at a time, in
 **parameter order**.  Runs in the caller's frame. -/
-def bindParams (fs : List FuncDef) : Nat → Ctl → XStore → List Param → XArgs → Bool → Nat → Bindings → XRes Bindings
+def bindParams (ds : Defs) (fbMode : Bool) : Nat → Ctl → XStore → List Param → XArgs → Bool → Nat → Bindings → XRes Bindings
   | 0, _, σ, _, _, _, _, _ => (σ, xtimeout)
   | _ + 1, _, σ, [], _, _, _, acc => (σ, pure acc)
   | fuel + 1, ctl, σ, p :: rest, args, positional, idx, acc =>
@@ -259,69 +315,70 @@ def bindParams (fs : List FuncDef) : Nat → Ctl → XStore → List Param → X
       let src : Option XExpr := match arg with | some a => some a | none => p.default
       match src with
       | none =>
-        bindParams fs fuel ctl σ rest args positional (idx + 1)
+        bindParams ds fbMode fuel ctl σ rest args positional (idx + 1)
           { acc with paramValues := acc.paramValues ++ [(p.name, p.ty.default)] }
       | some a =>
-        match evalX fs fuel ctl σ a with
+        match evalX ds fuel ctl σ a with
         | (σ1, .error s) => (σ1, .error s)
         | (σ1, .ok v) =>
-          bindParams fs fuel ctl σ1 rest args positional (idx + 1)
+          bindParams ds fbMode fuel ctl σ1 rest args positional (idx + 1)
             { acc with paramValues := acc.paramValues ++ [(p.name, v)] }
     | .out =>
-      let acc1 := { acc with paramValues := acc.paramValues ++ [(p.name, p.ty.default)] }
+      -- `BindingMode::Function` gives the OUT parameter a fresh local; an FB keeps its instance variable
+      let acc1 := if fbMode then acc else { acc with paramValues := acc.paramValues ++ [(p.name, p.ty.default)] }
       match arg with
-      | none => bindParams fs fuel ctl σ rest args positional (idx + 1) acc1
+      | none => bindParams ds fbMode fuel ctl σ rest args positional (idx + 1) acc1
       | some a =>
         match a.target? with
         | none => (σ, fault .TypeMismatch .callBindTarget)
         | some t =>
-          bindParams fs fuel ctl σ rest args positional (idx + 1)
+          bindParams ds fbMode fuel ctl σ rest args positional (idx + 1)
             { acc1 with outTargets := acc1.outTargets ++ [(p.name, t)] }
     | .inout =>
       match arg with
-      | none => bindParams fs fuel ctl σ rest args positional (idx + 1) acc
+      | none => bindParams ds fbMode fuel ctl σ rest args positional (idx + 1) acc
       | some a =>
         match a.target? with
         | none => (σ, fault .TypeMismatch .callBindTarget)
         | some t =>
-          match readNameX σ t with
+          match readNameC ctl.cur σ t with
           | .error s => (σ, .error s)
           | .ok v =>
-            bindParams fs fuel ctl σ rest args positional (idx + 1)
+            bindParams ds fbMode fuel ctl σ rest args positional (idx + 1)
               { paramValues := acc.paramValues ++ [(p.name, v)],
                 outTargets := acc.outTargets ++ [(p.name, t)] }
 
 /-- `eval/mod.rs: init_locals`: initialiser evaluated in the new frame, stored **as is**. -/
-def initLocals (fs : List FuncDef) : Nat → Ctl → XStore → List Local → XRes Unit
+def initLocals (ds : Defs) : Nat → Ctl → XStore → List Local → XRes Unit
   | 0, _, σ, _ => (σ, xtimeout)
   | _ + 1, _, σ, [] => (σ, pure ())
   | fuel + 1, ctl, σ, l :: rest =>
     match l.init with
-    | none => initLocals fs fuel ctl (setLocal σ l.name l.ty.default) rest
+    | none => initLocals ds fuel ctl (setLocal σ l.name l.ty.default) rest
     | some e =>
-      match evalX fs fuel ctl σ e with
+      match evalX ds fuel ctl σ e with
       | (σ1, .error s) => (σ1, .error s)
-      | (σ1, .ok v) => initLocals fs fuel ctl (setLocal σ1 l.name v) rest
+      | (σ1, .ok v) => initLocals ds fuel ctl (setLocal σ1 l.name v) rest
 
 /-- `eval/mod.rs: call_function`. -/
-def callFunction (fs : List FuncDef) : Nat → Ctl → XStore → FuncDef → XArgs → XRes Val
+def callFunction (ds : Defs) : Nat → Ctl → XStore → FuncDef → XArgs → XRes Val
   | 0, _, σ, _, _ => (σ, xtimeout)
   | fuel + 1, ctl, σ, fd, args =>
     let positional := args.allPositional
     if positional ∧ args.length ≠ fd.params.length then
       (σ, fault .InvalidArgumentCount .callArgCount)
     else
-    match bindParams fs fuel ctl σ fd.params args positional 0 {} with
+    match bindParams ds false fuel ctl σ fd.params args positional 0 {} with
     | (σ1, .error s) => (σ1, .error s)                  -- nothing pushed yet
     | (σ1, .ok b) =>
       -- push_frame, return slot, parameters
       let σ2 := setLocal (pushFrame σ1 fd.name) fd.name fd.ret.default
       let σ3 := b.paramValues.foldl (fun σ (x, v) => setLocal σ x v) σ2
       let ctl' : Ctl := { ctl with retName := some fd.name }
-      match initLocals fs fuel ctl' σ3 fd.locals with
+      match initLocals ds fuel ctl' σ3 fd.locals with
       | (σ4, .error s) => (popFrame σ4, .error s)
       | (σ4, .ok _) =>
-        match execXBlock fs fuel ctl' σ4 fd.body with
+        match execXBlock ds fuel ctl' σ4 fd.body with
         | (σ5, .error s) => (popFrame σ5, .error s)
         | (σ5, .ok flow) =>
           let rv : Val :=
@@ -332,59 +389,94 @@ def callFunction (fs : List FuncDef) : Nat → Ctl → XStore → FuncDef → XA
               | none => fd.ret.default
           -- collect_outputs: read every bound OUT / IN_OUT parameter in the callee frame
           let outs : M (List (String × Val)) :=
-            b.outTargets.mapM fun (p, t) => (readNameX σ5 p).map fun v => (t, v)
+            b.outTargets.mapM fun (p, t) => (readNameC ctl.cur σ5 p).map fun v => (t, v)
           match outs with
           | .error s => (popFrame σ5, .error s)
           | .ok ws =>
             -- pop, then write_output_values in the caller's frame (`write_name` cannot fail)
-            let σ6 := ws.foldl (fun σ (t, v) => writeNameX σ t v) (popFrame σ5)
+            let σ6 := ws.foldl (fun σ (t, v) => writeNameC ctl.cur σ t v) (popFrame σ5)
             (σ6, pure rv)
 
+/-- `eval/mod.rs: call_function_block`: every VAR_INPUT is (re)written — from the argument, else
+from the declared default, else from the type default; the values go into the instance **as
+is**; the body runs with `current_instance` = the instance; outputs are read after the body and
+written in the caller's context after the pop. -/
+def callFb (ds : Defs) : Nat → Ctl → XStore → String → FbDef → XArgs → XRes XFlow
+  | 0, _, σ, _, _, _ => (σ, xtimeout)
+  | fuel + 1, ctl, σ, c, fb, args =>
+    let positional := args.allPositional
+    if positional ∧ args.length ≠ fb.params.length then
+      (σ, fault .InvalidArgumentCount .callArgCount)
+    else
+    match bindParams ds true fuel ctl σ fb.params args positional 0 {} with
+    | (σ1, .error s) => (σ1, .error s)
+    | (σ1, .ok b) =>
+      let σ2 := pushFrame σ1 fb.name
+      let σ3 := b.paramValues.foldl (fun σ (x, v) => setInstVar σ c x v) σ2
+      let ctl' : Ctl := { ctl with cur := some c }
+      match execXBlock ds fuel ctl' σ3 fb.body with
+      | (σ4, .error s) => (popFrame σ4, .error s)
+      | (σ4, .ok .exit) => (popFrame σ4, fault .InvalidControlFlow .fbFlow)
+      | (σ4, .ok .loopCont) => (popFrame σ4, fault .InvalidControlFlow .fbFlow)
+      | (σ4, .ok _) =>
+        let outs : M (List (String × Val)) :=
+          b.outTargets.mapM fun (p, t) => (readNameC (some c) σ4 p).map fun v => (t, v)
+        match outs with
+        | .error s => (popFrame σ4, .error s)
+        | .ok ws => (ws.foldl (fun σ (t, v) => writeNameC ctl.cur σ t v) (popFrame σ4), .ok .cont)
+
 /-- `eval/stmt.rs: exec_stmt`. -/
-def execXStmt (fs : List FuncDef) : Nat → Ctl → XStore → XStmt → XRes XFlow
+def execXStmt (ds : Defs) : Nat → Ctl → XStore → XStmt → XRes XFlow
   | 0, _, σ, _ => (σ, xtimeout)
   | fuel + 1, ctl, σ, s =>
     match s with
     | .assign x e =>
-      match evalX fs fuel ctl σ e with
+      match evalX ds fuel ctl σ e with
       | (σ1, .error st) => (σ1, .error st)
       | (σ1, .ok v) =>
-        let σ2 := writeNameX σ1 x v
+        let σ2 := writeNameC ctl.cur σ1 x v
         -- `if target.name() == return_name { frame.return_value = Some(read_lvalue(target)) }`
         if ctl.retName = some x then
-          match readNameX σ2 x with
+          match readNameC ctl.cur σ2 x with
           | .ok rv => (setRet σ2 rv, .ok .cont)
           | .error st => (σ2, .error st)
         else (σ2, .ok .cont)
     | .expr e =>
-      match evalX fs fuel ctl σ e with
+      match evalX ds fuel ctl σ e with
       | (σ1, .error st) => (σ1, .error st)
       | (σ1, .ok _) => (σ1, .ok .cont)
+    | .fbcall c args =>
+      match (ds.instTy.lookup c).bind (findFb ds.fbs) with
+      | none =>
+        match readNameC ctl.cur σ c with
+        | .error s => (σ, .error s)
+        | .ok _ => (σ, fault .TypeMismatch .callUndefined)
+      | some fb => callFb ds fuel ctl σ c fb args
     | .ite c t elifs el =>
-      match evalX fs fuel ctl σ c with
+      match evalX ds fuel ctl σ c with
       | (σ1, .error st) => (σ1, .error st)
-      | (σ1, .ok (.b true)) => execXBlock fs fuel ctl σ1 t
-      | (σ1, .ok (.b false)) => execXElifs fs fuel ctl σ1 elifs el
+      | (σ1, .ok (.b true)) => execXBlock ds fuel ctl σ1 t
+      | (σ1, .ok (.b false)) => execXElifs ds fuel ctl σ1 elifs el
       | (σ1, .ok (.i _ _)) => (σ1, fault .ConditionNotBool .condNotBool)
     | .case sel brs el =>
-      match evalX fs fuel ctl σ sel with
+      match evalX ds fuel ctl σ sel with
       | (σ1, .error st) => (σ1, .error st)
       | (σ1, .ok v) =>
         match selectorInt v with
         | .error st => (σ1, .error st)
-        | .ok none => execXBlock fs fuel ctl σ1 el
+        | .ok none => execXBlock ds fuel ctl σ1 el
         | .ok (some n) =>
           match findXBranch n brs with
-          | some b => execXBlock fs fuel ctl σ1 b
-          | none => execXBlock fs fuel ctl σ1 el
+          | some b => execXBlock ds fuel ctl σ1 b
+          | none => execXBlock ds fuel ctl σ1 el
     | .for x s e step body =>
-      match evalX fs fuel ctl σ s with
+      match evalX ds fuel ctl σ s with
       | (σ1, .error st) => (σ1, .error st)
       | (σ1, .ok sv) =>
-        match evalX fs fuel ctl σ1 e with
+        match evalX ds fuel ctl σ1 e with
         | (σ2, .error st) => (σ2, .error st)
         | (σ2, .ok ev) =>
-          match evalX fs fuel ctl σ2 (stepXExpr step) with
+          match evalX ds fuel ctl σ2 (stepXExpr step) with
           | (σ3, .error st) => (σ3, .error st)
           | (σ3, .ok tv) =>
             let pre : M (Int × Int × Int × Val) := do
@@ -392,47 +484,47 @@ def execXStmt (fs : List FuncDef) : Nat → Ctl → XStore → XStmt → XRes XF
               let ei ← intValue .real ev
               let ti ← intValue .real tv
               if ti = 0 then fault .ForStepZero .forStepZero else do
-              let tmpl ← readNameX σ3 x
+              let tmpl ← readNameC ctl.cur σ3 x
               if tmpl.isUnsignedInt && decide (ti < 0) then fault .TypeMismatch .forUnsignedNegStep else do
               let first ← coerceLoopValue tmpl si
               pure (si, ei, ti, first)
             match pre with
             | .error st => (σ3, .error st)
             | .ok (si, ei, ti, first) =>
-              forXLoop fs fuel ctl (writeNameX σ3 x first) x first si ei ti body
-    | .while c body => whileXLoop fs fuel ctl σ c body
-    | .repeat body c => repeatXLoop fs fuel ctl σ body c
+              forXLoop ds fuel ctl (writeNameC ctl.cur σ3 x first) x first si ei ti body
+    | .while c body => whileXLoop ds fuel ctl σ c body
+    | .repeat body c => repeatXLoop ds fuel ctl σ body c
     | .exit => if ctl.ld = 0 then (σ, fault .InvalidControlFlow .exitOutsideLoop) else (σ, .ok .exit)
     | .continue => if ctl.ld = 0 then (σ, fault .InvalidControlFlow .exitOutsideLoop) else (σ, .ok .loopCont)
     | .ret none => (σ, .ok (.ret none))
     | .ret (some e) =>
-      match evalX fs fuel ctl σ e with
+      match evalX ds fuel ctl σ e with
       | (σ1, .error st) => (σ1, .error st)
       | (σ1, .ok v) => (σ1, .ok (.ret (some v)))
 
-def execXBlock (fs : List FuncDef) : Nat → Ctl → XStore → XBlock → XRes XFlow
+def execXBlock (ds : Defs) : Nat → Ctl → XStore → XBlock → XRes XFlow
   | 0, _, σ, _ => (σ, xtimeout)
   | _ + 1, _, σ, .nil => (σ, .ok .cont)
   | fuel + 1, ctl, σ, .cons s rest =>
-    match execXStmt fs fuel ctl σ s with
-    | (σ', .ok .cont) => execXBlock fs fuel ctl σ' rest
+    match execXStmt ds fuel ctl σ s with
+    | (σ', .ok .cont) => execXBlock ds fuel ctl σ' rest
     | r => r
 
-def execXElifs (fs : List FuncDef) : Nat → Ctl → XStore → XElifs → XBlock → XRes XFlow
+def execXElifs (ds : Defs) : Nat → Ctl → XStore → XElifs → XBlock → XRes XFlow
   | 0, _, σ, _, _ => (σ, xtimeout)
-  | fuel + 1, ctl, σ, .nil, el => execXBlock fs fuel ctl σ el
+  | fuel + 1, ctl, σ, .nil, el => execXBlock ds fuel ctl σ el
   | fuel + 1, ctl, σ, .cons c b rest, el =>
-    match evalX fs fuel ctl σ c with
+    match evalX ds fuel ctl σ c with
     | (σ1, .error st) => (σ1, .error st)
-    | (σ1, .ok (.b true)) => execXBlock fs fuel ctl σ1 b
-    | (σ1, .ok (.b false)) => execXElifs fs fuel ctl σ1 rest el
+    | (σ1, .ok (.b true)) => execXBlock ds fuel ctl σ1 b
+    | (σ1, .ok (.b false)) => execXElifs ds fuel ctl σ1 rest el
     | (σ1, .ok (.i _ _)) => (σ1, fault .ConditionNotBool .condNotBool)
 
-def forXLoop (fs : List FuncDef) : Nat → Ctl → XStore → String → Val → Int → Int → Int → XBlock → XRes XFlow
+def forXLoop (ds : Defs) : Nat → Ctl → XStore → String → Val → Int → Int → Int → XBlock → XRes XFlow
   | 0, _, σ, _, _, _, _, _, _ => (σ, xtimeout)
   | fuel + 1, ctl, σ, x, tmpl, cur, endV, step, body =>
     if (step > 0 ∧ cur > endV) ∨ (step < 0 ∧ cur < endV) then (σ, .ok .cont) else
-    match execXBlock fs fuel { ctl with ld := ctl.ld + 1 } σ body with
+    match execXBlock ds fuel { ctl with ld := ctl.ld + 1 } σ body with
     | (σ', .error st) => (σ', .error st)
     | (σ', .ok .exit) => (σ', .ok .cont)
     | (σ', .ok (.ret v)) => (σ', .ok (.ret v))
@@ -441,39 +533,55 @@ def forXLoop (fs : List FuncDef) : Nat → Ctl → XStore → String → Val →
       if next < i64Min ∨ next > i64Max then (σ', fault .Overflow .forIncrement) else
       match coerceLoopValue tmpl next with
       | .error st => (σ', .error st)
-      | .ok v => forXLoop fs fuel ctl (writeNameX σ' x v) x tmpl next endV step body
+      | .ok v => forXLoop ds fuel ctl (writeNameC ctl.cur σ' x v) x tmpl next endV step body
 
-def whileXLoop (fs : List FuncDef) : Nat → Ctl → XStore → XExpr → XBlock → XRes XFlow
+def whileXLoop (ds : Defs) : Nat → Ctl → XStore → XExpr → XBlock → XRes XFlow
   | 0, _, σ, _, _ => (σ, xtimeout)
   | fuel + 1, ctl, σ, c, body =>
-    match evalX fs fuel ctl σ c with
+    match evalX ds fuel ctl σ c with
     | (σ1, .error st) => (σ1, .error st)
     | (σ1, .ok (.i _ _)) => (σ1, fault .ConditionNotBool .condNotBool)
     | (σ1, .ok (.b false)) => (σ1, .ok .cont)
     | (σ1, .ok (.b true)) =>
-      match execXBlock fs fuel { ctl with ld := ctl.ld + 1 } σ1 body with
+      match execXBlock ds fuel { ctl with ld := ctl.ld + 1 } σ1 body with
       | (σ', .error st) => (σ', .error st)
       | (σ', .ok .exit) => (σ', .ok .cont)
       | (σ', .ok (.ret v)) => (σ', .ok (.ret v))
-      | (σ', .ok _) => whileXLoop fs fuel ctl σ' c body
+      | (σ', .ok _) => whileXLoop ds fuel ctl σ' c body
 
-def repeatXLoop (fs : List FuncDef) : Nat → Ctl → XStore → XBlock → XExpr → XRes XFlow
+def repeatXLoop (ds : Defs) : Nat → Ctl → XStore → XBlock → XExpr → XRes XFlow
   | 0, _, σ, _, _ => (σ, xtimeout)
   | fuel + 1, ctl, σ, body, c =>
-    match execXBlock fs fuel { ctl with ld := ctl.ld + 1 } σ body with
+    match execXBlock ds fuel { ctl with ld := ctl.ld + 1 } σ body with
     | (σ', .error st) => (σ', .error st)
     | (σ', .ok .exit) => (σ', .ok .cont)
     | (σ', .ok (.ret v)) => (σ', .ok (.ret v))
     | (σ', .ok _) =>
-      match evalX fs fuel ctl σ' c with
+      match evalX ds fuel ctl σ' c with
       | (σ1, .error st) => (σ1, .error st)
       | (σ1, .ok (.i _ _)) => (σ1, fault .ConditionNotBool .condNotBool)
       | (σ1, .ok (.b true)) => (σ1, .ok .cont)
-      | (σ1, .ok (.b false)) => repeatXLoop fs fuel ctl σ1 body c
+      | (σ1, .ok (.b false)) => repeatXLoop ds fuel ctl σ1 body c
 end
 
+def XProgram.defs (p : XProgram) : Defs := { funcs := p.funcs, fbs := p.fbs, instTy := p.insts }
+
+/-- `instance.rs: create_fb_instance`: every parameter gets its **type** default
+(`init_param_defaults` ignores the declared default), every VAR its coerced initialiser or the
+type default. -/
+def FbDef.initVars (fb : FbDef) : Env :=
+  fb.params.map (fun q => (q.name, q.ty.default)) ++
+    fb.vars.map (fun l => (l.name,
+      match l.init, l.ty with
+      | some (.lit _ v), .int k => Val.i k v
+      | some (.un .neg (.lit _ v)), .int k => Val.i k (-v)
+      | some (.blit b), .bool => Val.b b
+      | _, t => t.default))
+
 def XProgram.initStore (p : XProgram) : XStore :=
-  { vars := p.decls.map fun d => (d.name, d.initVal) }
+  { vars := p.decls.map fun d => (d.name, d.initVal),
+    insts := p.insts.map fun (c, t) =>
+      (c, match findFb p.fbs t with | some fb => fb.initVars | none => []) }
 
 structure XRunState where
   store : XStore
@@ -484,7 +592,7 @@ structure XRunState where
 def xcycle (p : XProgram) (fuel : Nat) (st : XRunState) : XRunState × CycleOut :=
   if st.faulted then (st, some (.fault .ResourceFaulted .latched)) else
   let σ0 := pushFrame st.store p.name
-  let (σ1, r) := execXBlock p.funcs fuel {} σ0 p.body
+  let (σ1, r) := execXBlock p.defs fuel {} σ0 p.body
   let σ2 := popFrame σ1
   match r with
   | .ok .cont => ({ store := σ2, faulted := false }, none)
